@@ -204,6 +204,10 @@ def make_strategy_class():
                 trade = self.my_trades[tr % len(self.my_trades)]
                 if (trade.market_id, trade.selection_id, trade.handicap) != (market.market_id, r["id"], r.get("hc", 0)):
                     trade = None
+                elif trade.status.name == "COMPLETE" and not op.get("reuse_completed_trade"):
+                    # adding an order to a trade that has already completed is only sanctioned through the
+                    # pending_orders flag (outside the properties): a new trade is used instead
+                    trade = None
             else:
                 trade = None
             if trade is None:
@@ -253,7 +257,7 @@ def make_strategy_class():
                 t = transaction or market
                 try:
                     if kind == "place":
-                        order = self.build_order(market, op)
+                        order = op.get("_prebuilt") or self.build_order(market, op)
                         res.order = order
                         mv = op.get("mv")
                         if mv == "cur":
@@ -291,7 +295,8 @@ def make_strategy_class():
                             kw = {"force": True} if op.get("force") else {}
                             res.result = t.cancel_order(order, size_reduction=red, **kw)
                         elif kind == "update":
-                            res.result = t.update_order(order, new_persistence_type=op.get("pers", "PERSIST"))
+                            kw = {"force": True} if op.get("force") else {}
+                            res.result = t.update_order(order, new_persistence_type=op.get("pers", "PERSIST"), **kw)
                         elif kind == "replace":
                             prices = self.lab.prices[market.market_id]
                             cur = getattr(order.order_type, "price", None)
@@ -303,7 +308,8 @@ def make_strategy_class():
                                 except ValueError:
                                     i = 50
                                 new = prices[max(0, min(len(prices) - 1, i + op.get("ticks", 1)))]
-                            res.result = t.replace_order(order, new_price=new)
+                            kw = {"force": True} if op.get("force") else {}
+                            res.result = t.replace_order(order, new_price=new, **kw)
                         else:
                             res.result = "unknown-op"
                 except FlumineException as e:  # OrderError / OrderUpdateError / ControlError
